@@ -22,6 +22,7 @@ func suiteLockstep(c *Ctx) {
 		lockCuckoo(c)
 		lockTopK(c)
 	}
+	lockCuckooHoles(c)
 }
 
 func lockBloom(c *Ctx) {
@@ -184,6 +185,62 @@ func lockHLL(c *Ctx) {
 		}
 	}
 	c.nontrivial(fmt.Sprint(cfg, hist))
+}
+
+// lockCuckooHoles: a fixed history, whatever the seed: one bucket of four slots; three elements in,
+// the FIRST one out (a hole in front of occupied slots), a fourth in, then each of the others out and
+// in again: after every step both backends answer every lookup and Length identically.
+func lockCuckooHoles(c *Ctx) {
+	cfg := cuckooCfg{n: 1, b: 4, fpl: 3, retries: 5}
+	m, _ := cfg.build()
+	cfg.redis = true
+	r, err := cfg.build()
+	if err != nil || m == nil || r == nil {
+		return
+	}
+	c.rep.Cases++
+	var es [][]byte
+	fps := map[string]bool{}
+	for i := 0; len(es) < 5 && i < 300; i++ {
+		e := []byte(fmt.Sprintf("hole-%d", i))
+		if fp, _, _, ok := cuckooPos(e, 1, 3); ok && !fps[fp] {
+			fps[fp] = true
+			es = append(es, e)
+		}
+	}
+	if len(es) < 5 {
+		return
+	}
+	type step struct {
+		ins bool
+		j   int
+	}
+	steps := []step{{true, 0}, {true, 1}, {true, 2}, {false, 0}, {true, 3}, {false, 1}, {true, 4}, {false, 2}, {true, 0}, {false, 3}, {false, 4}, {true, 1}}
+	for si, st := range steps {
+		var a, b bool
+		if st.ins {
+			safely(func() { a = m.Insert(es[st.j], false) })
+			safely(func() { b = r.Insert(es[st.j], false) })
+		} else {
+			a, _ = m.Remove(es[st.j])
+			b, _ = r.Remove(es[st.j])
+		}
+		bad := a != b || m.Length() != r.Length()
+		var detail string
+		for jj, e := range es {
+			x, _ := m.Lookup(e)
+			y, _ := r.Lookup(e)
+			if x != y {
+				bad = true
+				detail = fmt.Sprintf("Lookup(element %d) mem=%v redis=%v", jj, x, y)
+			}
+		}
+		if bad {
+			c.fail([]string{"C08", "C02", "C13"}, "cuckoo-lockstep", fmt.Sprintf("cuckoo(n=1,b=4,fpl=3): fixed history with holes, step %d (insert=%v element %d): results mem=%v redis=%v, Length mem=%d redis=%d %s", si, st.ins, st.j, a, b, m.Length(), r.Length(), detail), nil)
+			return
+		}
+	}
+	c.branch("cuckoo-fixed-holes")
 }
 
 func lockCuckoo(c *Ctx) {
